@@ -204,45 +204,21 @@ for nm, args in (("filter_compress", "-z"), ("filter_decompress", "-d"), ("filte
     main_ob("main_" + nm, "h_main_filter", {"C21": "quick", "C07": "quick"}, args, extra=["-DFILTER_CHECKS"], witnesses=FW)
 
 # C22: option sources and parsing
-def opts_ob(name, ntok, one_env, tier, to):
+def opts_ob(name, ntok, use_env, pn_mask, tier, to):
+    names = [n for i, n in enumerate(["lbzip2", "bzip2", "bunzip2", "lbunzip2", "bzcat", "lbzcat", "foo"]) if (pn_mask >> i) & 1]
     add(name, "h_main.c", "h_opts", {"C22": tier},
-        defines=["-include", "/verif/harness/osmodel_sig.h", "-DOPTS_ONLY", "-DNTOK=%d" % ntok] + (["-DONE_ENV"] if one_env else []),
-        cbmc=["--unwind", "19", "--unwindset", "h_opts.0:42,opts_setup.0:4,opts_setup.1:5,opts_setup.2:%d,opts_setup.3:5,opts_setup.4:%d,opts_setup.5:%d" % (ntok + 2, ntok + (4 if one_env else 8), ntok + (4 if one_env else 8))],
-        object_bits=12, backend="kissat", timeout=to, mem_gb=8,
+        defines=["-include", "/verif/harness/osmodel_sig.h", "-DOPTS_ONLY", "-DNTOK=%d" % ntok, "-DUSE_ENV=%d" % use_env, "-DPN_MASK=%d" % pn_mask],
+        cbmc=["--unwind", "42"], object_bits=14 if (ntok and use_env) or ntok > 1 else 12, backend="kissat", timeout=to, mem_gb=12 if ntok > 1 or (ntok and use_env) else 8,
         functions=["src/main.c:opts_setup", "src/main.c:opts_outmode", "src/main.c:opts_decompress", "src/main.c:main (invocation name)"],
-        witnesses=["decompressing_name", "all_tokens_used"] + ([] if one_env else ["two_environment_variables"]),
-        bounds="invocation name symbolic among lbzip2/bzip2/bunzip2/lbunzip2/bzcat/lbzcat/other; %d command-line token(s) drawn symbolically from a 32-entry vocabulary "
-               "(short, clustered, long, documented no-ops, --small); %s of LBZIP2/BZIP2/BZIP set to one of 12 values (one or two tokens, single/double/leading/trailing separators, tab)"
-               % (ntok, "at most one" if one_env else "any subset"),
+        witnesses=["decompressing_name"] + (["environment_value_with_double_separator"] if use_env else []) + (["options_refused"] if (ntok + use_env) >= 2 else []),
+        bounds="invocation name in {%s}; %d command-line token(s) from a 32-entry vocabulary (short, clustered, long, documented no-ops, --small); %s. "
+               "The case (name, environment value, tokens) is selected by symbolic inputs; each case runs opts_setup() on concrete strings"
+               % (", ".join(names), ntok, "at most one of LBZIP2/BZIP2/BZIP set to one of 12 values (one or two tokens, single/double/leading/trailing separators, tab)" if use_env else "environment empty"),
         assumptions=["strtok() modelled with C-standard semantics; getenv/isatty/sysconf stubbed (no terminal, 4 processors)",
                      "signals.c not linked in this query: a refused option ends the path in bailout()",
                      "reference = executable model of the documented rules (ref_apply in h_main.c)"],
-        outside=["FILE operands mixed with options, -n/-m arguments, --help/--version", "more than %d command-line tokens" % ntok])
-opts_ob("opts_tok1_env1", 1, True, "quick", 900)
-opts_ob("opts_tok2_env1", 2, True, "thorough", 2400)
-opts_ob("opts_tok1_env3", 1, False, "thorough", 2400)
-
-# ------------------------------------------------------------------------------- compress.c scheduler
-COMP_ASM = ["codec entry points (collect/encode/transmit) replaced by contract stubs; collect consumes an arbitrary non-empty prefix",
-            "pthread primitives are no-ops; the scheduler lock is owned by the harness",
-            "RG steps: the state at every lock acquisition is arbitrary subject to the monitor invariant INV of h_compress.c (rely); C12 (all shared state accessed under the lock) is assumed"]
-def comp_ob(name, entry, props, bounds, funcs, wit, unwind=12, to=600, real_heap=False, **kw):
-    add(name, "h_compress.c", entry, props, cbmc=["--unwind", str(unwind)], backend="kissat", timeout=to, mem_gb=8, object_bits=10,
-        extra_src=[("process.c", ["-include", "/verif/harness/proc_rename.h"])] if real_heap else [], defines=["-DREAL_HEAP"] if real_heap else [],
-        functions=funcs + (["src/process.c:up_heap", "src/process.c:down_heap"] if real_heap else []) + ["src/process.h:pqueue macros"], bounds=bounds,
-        assumptions=COMP_ASM + ([] if real_heap else ["up_heap()/down_heap() replaced by a bag with correct head extraction in this query (order inside the queue is irrelevant to the invariant); the real helpers are checked by heap_ops"]),
-        witnesses=wit, **kw)
-comp_ob("stream_frame", "h_stream_frame", {"C02": "quick", "C03": "quick", "C18": "quick", "C11": "quick", "C01": "quick"},
-        "two streams in one process, levels 1..9 each, 1..3 blocks per stream with arbitrary CRCs arriving at the reorder queue in any rotation",
-        ["src/compress.c:init", "src/compress.c:uninit", "src/compress.c:write_header", "src/compress.c:write_trailer", "src/compress.c:can_reorder", "src/compress.c:do_reorder", "src/encode.h:combine_crc"],
-        ["blocks_arrive_out_of_order", "second_stream_written"], real_heap=True)
-RGP = {"C11": "quick", "C13": "quick", "C03": "quick"}
-RGB = "worker count symbolic 1..3 (slot totals 2w / 2w+2), all counters, queue sizes and queue contents arbitrary subject to INV; one task execution with re-havoc at every lock release"
-comp_ob("rg_transmit", "h_rg_transmit", RGP, RGB, ["src/compress.c:can_transmit", "src/compress.c:do_transmit"], ["transmit_enabled", "transmit_on_reserved_slot"])
-comp_ob("rg_reorder", "h_rg_reorder", RGP, RGB, ["src/compress.c:can_reorder", "src/compress.c:do_reorder"], ["reorder_enabled"])
-comp_ob("rg_collect", "h_rg_collect", RGP, RGB, ["src/compress.c:can_collect", "src/compress.c:do_collect"], ["collect_enabled", "input_block_split"])
-comp_ob("rg_write_complete", "h_rg_write_complete", RGP, RGB, ["src/compress.c:on_write_complete"], ["write_completes"])
-comp_ob("rg_input_avail", "h_rg_input_avail", RGP, RGB, ["src/compress.c:on_input_avail"], ["input_block_arrives"])
-comp_ob("terminate_guard", "h_terminate_guard", {"C11": "quick"}, RGB, ["src/compress.c:can_terminate"], ["terminates"])
-comp_ob("heap_ops", "h_heap_ops", {"C11": "quick", "C03": "quick", "C10": "quick"}, "binary heap of <=5 elements with arbitrary positions satisfying the heap order; one insertion or one removal",
-        [], ["heap_insert", "heap_remove"], real_heap=True)
+        outside=["FILE operands mixed with options, -n/-m arguments, --help/--version", "more than %d command-line tokens; two environment variables set at once" % ntok])
+opts_ob("opts_names_x_token", 1, 0, 0x7f, "quick", 600)
+opts_ob("opts_env_x_names", 0, 1, 0x15, "quick", 600)
+opts_ob("opts_env_x_token", 1, 1, 0x04, "thorough", 3000)
+opts_ob("opts_names_x_2tokens", 2, 0, 0x7f, "thorough", 3000)
